@@ -338,6 +338,27 @@ class AtLeast(puan.Proposition):
             )
         )
 
+    def _occurrences(self) -> typing.List[puan.Proposition]:
+
+        """
+            Returns this proposition and all its sub propositions as they occur in the tree.
+            Unlike :meth:`flatten`, propositions that compare equal are not merged.
+
+            Returns
+            -------
+                out : List[Proposition]
+        """
+        return list(
+            itertools.chain(
+                [self],
+                *map(
+                    operator.methodcaller("_occurrences"),
+                    self.compound_propositions
+                ),
+                self.atomic_propositions
+            )
+        )
+
     def errors(self) -> typing.List[PropositionValidationError]:
 
         """
@@ -405,7 +426,7 @@ class AtLeast(puan.Proposition):
                             maz.compose(
                                 len,
                                 set,
-                                functools.partial(map, hash),
+                                functools.partial(map, lambda x: (x.id, x.bounds.as_tuple())),
                                 itertools.chain.from_iterable,
                                 maz.fnmap(
                                     functools.partial(
@@ -429,7 +450,7 @@ class AtLeast(puan.Proposition):
                                         )
                                     )
                                 ),
-                                operator.methodcaller("flatten")
+                                operator.methodcaller("_occurrences")
                             ),
                             maz.compose(
                                 len,
@@ -438,7 +459,7 @@ class AtLeast(puan.Proposition):
                                     map, 
                                     operator.attrgetter("id")
                                 ),
-                                operator.methodcaller("flatten")
+                                operator.methodcaller("_occurrences")
                             ),
                         )
                     ),
@@ -453,7 +474,14 @@ class AtLeast(puan.Proposition):
                             operator.eq,   
                         ),
                         maz.fnmap(
-                            maz.compose(len, set, functools.partial(map, hash)),
+                            maz.compose(
+                                len, 
+                                set, 
+                                functools.partial(
+                                    map, 
+                                    lambda x: (x.id, x.bounds.as_tuple(), int(x.sign), x.value, tuple(sorted(map(operator.attrgetter("id"), x.propositions))))
+                                )
+                            ),
                             maz.compose(len, set, functools.partial(map, operator.attrgetter("id")))
                         ),
                         list,
@@ -461,7 +489,7 @@ class AtLeast(puan.Proposition):
                             filter,
                             lambda x: not issubclass(x.__class__, puan.variable),
                         ),
-                        operator.methodcaller("flatten")
+                        operator.methodcaller("_occurrences")
                     ),
 
 
